@@ -200,6 +200,15 @@ def _real(ctx, d, pgpy, SI):
     cert = k.certify(ouid)
     subjects.append(('third-party-uid', ouid, cert, True))
     subjects.append(('self-uid', pub.userids[0], pub.userids[0].selfsig, True))
+    # the key itself as subject of its own direct-key signature / of a certification it made on another key
+    dsig = k.certify(k)
+    subjects.append(('self-key-direct', pub, dsig, True))
+    subjects.append(('third-party-key-direct', opub, k.certify(opub), True))
+    subjects.append(('self-key-direct-on-other-key', opub, dsig, False))
+    if d['rev']:
+        rsig = next(iter(pub.revocation_signatures), None)
+        if rsig is not None:
+            subjects.append(('self-key-revocation', pub, rsig, True))
     for label, subj, s, correct in subjects:
         sv = pub.verify(subj, s)
         ctx.count('real_verdicts')
